@@ -156,3 +156,15 @@ def check_conformation(name, conf, viol, counts, classes):
             if not back or abs(tot_here + tot_back) > 1e-9:
                 viol.append({"cls": "acid-base-coulomb-asymmetric", "msg": "%s: %s has %+.4f from %s, which has %s from it" % (
                     name, g["label"], tot_here, p["label"], ("%+.4f" % tot_back) if back else "nothing")})
+
+
+def check_average(conf, viol, counts):
+    """The reported average: signs of the desolvation terms and 0 <= buried <= 1 (determinant
+    magnitudes are bounded within a conformation only)."""
+    for g in conf["groups"]:
+        q = g["charge"]
+        counts["avr_groups_sign_checked"] = counts.get("avr_groups_sign_checked", 0) + 1
+        if g["E_vol"] * q > EPS or g["E_loc"] * q > EPS:
+            viol.append({"cls": "desolvation-wrong-sign", "msg": "AVR: %s (charge %+g) desolvation %.4f / %.4f" % (g["label"], q, g["E_vol"], g["E_loc"])})
+        if not (0.0 <= g["buried"] <= 1.0 + 1e-12):
+            viol.append({"cls": "buried-out-of-range", "msg": "AVR: %s buried fraction %r" % (g["label"], g["buried"])})
